@@ -93,6 +93,82 @@ type walker struct {
 	subst   map[int]*Term                  // free variable cell contents (optional)
 	substV  map[int]*Term                  // free variables bound by value (optional)
 	cells   map[string]*Term               // contents of cells of the enclosing function, by alloc key
+	hdrDone map[*ssa.Function]bool
+	inlined int
+}
+
+// inlineTarget decides whether a static call is walked through (inlined) rather than kept as a call event.
+func (w *walker) inlineTarget(st *pstate, call *ssa.Call) *ssa.Function {
+	if w.an.Mode == 0 || call.Call.IsInvoke() {
+		return nil
+	}
+	f, ok := call.Call.Value.(*ssa.Function)
+	if !ok {
+		return nil
+	}
+	if f.Origin() != nil {
+		f = f.Origin()
+	}
+	if len(f.Blocks) == 0 || f.Parent() != nil || f.Synthetic != "" {
+		return nil
+	}
+	fi := w.an.P.BySSA[f]
+	if fi == nil || fi.SSA != f {
+		return nil
+	}
+	outer := w.an.P.BySSA[w.fn]
+	if outer == nil {
+		// synthetic wrapper (bound method value): it belongs to its target's package
+		if t := boundTarget(w.fn); t != nil {
+			outer = w.an.P.BySSA[t]
+		}
+	}
+	if outer == nil || outer.Pkg != fi.Pkg {
+		return nil
+	}
+	// no recursion, bounded depth
+	if f == w.fn || len(st.frames) >= 3 {
+		return nil
+	}
+	for _, fr := range st.frames {
+		if fr.fn == f {
+			return nil
+		}
+	}
+	if w.an.isRecursive(f) {
+		return nil
+	}
+	switch w.an.Mode {
+	case 1:
+		if w.an.Baseline[fi.Name] {
+			return nil
+		}
+	case 2:
+	}
+	return f
+}
+
+// ensureHeaders computes loop headers and loop effects of a function (the outer one, or an inlined callee).
+func (w *walker) ensureHeaders(fn *ssa.Function) {
+	if w.hdrDone == nil {
+		w.hdrDone = map[*ssa.Function]bool{}
+	}
+	if w.hdrDone[fn] {
+		return
+	}
+	w.hdrDone[fn] = true
+	for _, b := range fn.Blocks {
+		for _, p := range b.Preds {
+			if b.Dominates(p) {
+				w.headers[b] = true
+			}
+		}
+	}
+	for _, b := range fn.Blocks {
+		if w.headers[b] && w.loopW[b] == nil {
+			w.loopW[b] = w.loopEffects(b)
+		}
+	}
 }
 
 type pstate struct {
@@ -110,6 +186,16 @@ type pstate struct {
 	loopIn  map[*ssa.BasicBlock]map[*ssa.Phi]*Term
 	acc     []Access
 	loopAt  map[*ssa.BasicBlock]int
+	frames  []frame
+}
+
+// frame: an inlined call in progress
+type frame struct {
+	fn       *ssa.Function
+	call     *ssa.Call
+	retBlock *ssa.BasicBlock
+	retIdx   int
+	defers   []Event // the caller's pending defers
 }
 
 func (s *pstate) clone() *pstate {
@@ -145,6 +231,7 @@ func (s *pstate) clone() *pstate {
 	n.blocks = append([]int(nil), s.blocks...)
 	n.defers = append([]Event(nil), s.defers...)
 	n.acc = append([]Access(nil), s.acc...)
+	n.frames = append([]frame(nil), s.frames...)
 	n.loopAt = make(map[*ssa.BasicBlock]int, len(s.loopAt))
 	for k, v := range s.loopAt {
 		n.loopAt[k] = v
@@ -259,17 +346,7 @@ func (an *Analysis) computePaths3(fn *ssa.Function, subst, substV map[int]*Term,
 		w.out.Unproven = "no body"
 		return w.out
 	}
-	// natural loop headers: a block with a predecessor it dominates
-	for _, b := range fn.Blocks {
-		for _, p := range b.Preds {
-			if b.Dominates(p) {
-				w.headers[b] = true
-			}
-		}
-	}
-	for h := range w.headers {
-		w.loopW[h] = w.loopEffects(h)
-	}
+	w.ensureHeaders(fn)
 	st := &pstate{env: map[ssa.Value]*Term{}, mem: map[string]*Term{}, memCls: map[string]string{}, epoch: map[string]int{},
 		onpath: map[*ssa.BasicBlock]bool{}, occ: map[string]int{}, loopIn: map[*ssa.BasicBlock]map[*ssa.Phi]*Term{}, loopAt: map[*ssa.BasicBlock]int{}}
 	func() {
@@ -323,9 +400,25 @@ func (w *walker) loopEffects(h *ssa.BasicBlock) *effectSet {
 }
 
 func (w *walker) walk(b *ssa.BasicBlock, from *ssa.BasicBlock, st *pstate) {
+	w.walkAt(b, 0, from, st)
+}
+
+// walkAt walks block b starting at instruction start (start > 0: resuming after an inlined call).
+func (w *walker) walkAt(b *ssa.BasicBlock, start int, from *ssa.BasicBlock, st *pstate) {
 	if len(w.out.Paths) > maxPaths {
 		w.fail("more than %d paths", maxPaths)
 	}
+	if start == 0 {
+		w.enterBlock(b, from, st)
+		if st.blocks == nil {
+			return
+		}
+	}
+	w.runBlock(b, start, from, st)
+}
+
+// enterBlock handles back edges and loop-header bookkeeping; it signals a finished path by setting st.blocks to nil.
+func (w *walker) enterBlock(b *ssa.BasicBlock, from *ssa.BasicBlock, st *pstate) {
 	if st.onpath[b] {
 		// back edge: terminal LoopBack
 		p := w.finish(st, EndLoopBack)
@@ -342,9 +435,13 @@ func (w *walker) walk(b *ssa.BasicBlock, from *ssa.BasicBlock, st *pstate) {
 				}
 			}
 		}
+		st.blocks = nil
 		return
 	}
 	st.onpath[b] = true
+	if st.blocks == nil {
+		st.blocks = []int{}
+	}
 	st.blocks = append(st.blocks, b.Index)
 	if w.headers[b] {
 		st.loopAt[b] = len(st.events)
@@ -367,7 +464,11 @@ func (w *walker) walk(b *ssa.BasicBlock, from *ssa.BasicBlock, st *pstate) {
 			st.epoch["l:"+c]++
 		}
 	}
-	for idx, in := range b.Instrs {
+}
+
+func (w *walker) runBlock(b *ssa.BasicBlock, start int, from *ssa.BasicBlock, st *pstate) {
+	for idx := start; idx < len(b.Instrs); idx++ {
+		in := b.Instrs[idx]
 		switch x := in.(type) {
 		case *ssa.Phi:
 			if w.headers[b] {
@@ -440,6 +541,30 @@ func (w *walker) walk(b *ssa.BasicBlock, from *ssa.BasicBlock, st *pstate) {
 			w.walk(b.Succs[0], b, st)
 			return
 		case *ssa.Return:
+			if n := len(st.frames); n > 0 {
+				// return from an inlined callee: bind the call's value and continue in the caller
+				fr := st.frames[n-1]
+				var rets []*Term
+				for _, r := range x.Results {
+					rets = append(rets, w.val(st, r))
+				}
+				st.frames = st.frames[:n-1]
+				switch len(rets) {
+				case 0:
+				case 1:
+					st.env[fr.call] = rets[0]
+				default:
+					st.env[fr.call] = &Term{Op: "tuple", Args: rets, Typ: fr.call.Type(), Val: fr.call}
+				}
+				st.defers = fr.defers
+				for k := range st.onpath {
+					if k.Parent() == fr.fn {
+						delete(st.onpath, k)
+					}
+				}
+				w.runBlock(fr.retBlock, fr.retIdx+1, nil, st)
+				return
+			}
 			p := w.finish(st, EndReturn)
 			for _, r := range x.Results {
 				p.Rets = append(p.Rets, w.val(st, r))
@@ -453,6 +578,21 @@ func (w *walker) walk(b *ssa.BasicBlock, from *ssa.BasicBlock, st *pstate) {
 			p := w.finish(st, EndPanic)
 			p.Panic = w.val(st, x.X)
 			return
+		case *ssa.Call:
+			if callee := w.inlineTarget(st, x); callee != nil {
+				w.ensureHeaders(callee)
+				for i, par := range callee.Params {
+					if i < len(x.Call.Args) {
+						st.env[par] = w.val(st, x.Call.Args[i])
+					}
+				}
+				st.frames = append(st.frames, frame{fn: callee, call: x, retBlock: b, retIdx: idx, defers: st.defers})
+				st.defers = nil
+				w.inlined++
+				w.walkAt(callee.Blocks[0], 0, nil, st)
+				return
+			}
+			w.step(st, in, b, idx)
 		default:
 			w.step(st, in, b, idx)
 		}
@@ -792,7 +932,7 @@ func (w *walker) step(st *pstate, in ssa.Instruction, b *ssa.BasicBlock, idx int
 	case *ssa.SliceToArrayPointer:
 		st.env[x] = &Term{Op: "conv", Args: []*Term{w.val(st, x.X)}, Typ: x.Type(), Val: x}
 	case *ssa.BinOp:
-		st.env[x] = &Term{Op: "bin", Sym: x.Op.String(), Args: []*Term{w.val(st, x.X), w.val(st, x.Y)}, Typ: x.Type(), Val: x}
+		st.env[x] = simplifyBin(&Term{Op: "bin", Sym: x.Op.String(), Args: []*Term{w.val(st, x.X), w.val(st, x.Y)}, Typ: x.Type(), Val: x})
 	case *ssa.UnOp:
 		a := w.val(st, x.X)
 		switch x.Op {
@@ -994,6 +1134,16 @@ func (w *walker) callEvent(st *pstate, c *ssa.CallCommon, in ssa.Instruction, ki
 				if mc, ok := ev.Callee.Val.(*ssa.MakeClosure); ok {
 					ev.SSAFn = mc.Fn.(*ssa.Function)
 					ev.Name = ev.SSAFn.Name()
+					// a bound method value x.M: the call is x.M(args)
+					if target := boundTarget(ev.SSAFn); target != nil && len(ev.Callee.Args) == 1 {
+						ev.SSAFn = target
+						if obj, ok := target.Object().(*types.Func); ok && obj != nil {
+							ev.Fn = obj.Origin()
+							ev.Name = funcName(ev.Fn, w.an.P.ModPath)
+						}
+						ev.Args = append([]*Term{ev.Callee.Args[0]}, ev.Args...)
+						ev.Callee = &Term{Op: "func", Sym: ev.Name, Obj: target.Object(), Val: target}
+					}
 				}
 			}
 		}
@@ -1189,3 +1339,70 @@ func storesTo(v ssa.Value) int {
 	return n
 }
 
+
+// simplifyBin folds comparisons with boolean constants (b == true -> b, b != true -> !b) and of two integer constants.
+func simplifyBin(t *Term) *Term {
+	if t.Sym != "==" && t.Sym != "!=" && t.Sym != "<" && t.Sym != "<=" && t.Sym != ">" && t.Sym != ">=" {
+		return t
+	}
+	a, b := t.Args[0], t.Args[1]
+	isBoolConst := func(x *Term) (bool, bool) {
+		if x.Op == "const" && (x.Sym == "true" || x.Sym == "false") {
+			return x.Sym == "true", true
+		}
+		return false, false
+	}
+	if t.Sym == "==" || t.Sym == "!=" {
+		for k := 0; k < 2; k++ {
+			if v, ok := isBoolConst(b); ok {
+				if _, both := isBoolConst(a); !both {
+					same := v == (t.Sym == "==")
+					if same {
+						return a
+					}
+					return &Term{Op: "un", Sym: "!", Args: []*Term{a}, Typ: t.Typ, Val: t.Val}
+				}
+			}
+			a, b = b, a
+		}
+	}
+	x, okx := a.IntVal()
+	y, oky := b.IntVal()
+	if okx && oky {
+		var r bool
+		switch t.Sym {
+		case "==":
+			r = x == y
+		case "!=":
+			r = x != y
+		case "<":
+			r = x < y
+		case "<=":
+			r = x <= y
+		case ">":
+			r = x > y
+		case ">=":
+			r = x >= y
+		}
+		return &Term{Op: "const", Sym: fmt.Sprint(r), Typ: t.Typ}
+	}
+	return t
+}
+
+// boundTarget: for a bound-method wrapper (x.M as a value) the method M; nil otherwise.
+func boundTarget(f *ssa.Function) *ssa.Function {
+	if f == nil || !strings.HasSuffix(f.Name(), "$bound") || len(f.Blocks) != 1 {
+		return nil
+	}
+	for _, in := range f.Blocks[0].Instrs {
+		if c, ok := in.(*ssa.Call); ok {
+			if sc := c.Call.StaticCallee(); sc != nil {
+				if sc.Origin() != nil {
+					sc = sc.Origin()
+				}
+				return sc
+			}
+		}
+	}
+	return nil
+}
